@@ -217,6 +217,13 @@ func c09Run(c *Ctx) {
 		}
 		c.Outcome(o)
 		n++
+		if n%100 == 0 && len(c.Conform) < 30 && o == "ok" && !b0cyclic(cs) {
+			cc := *cs
+			cc.MapBound = 0
+			cc.Choices = []int{}
+			raw, _ := json.Marshal(cc)
+			c.Conform = append(c.Conform, ConformRec{Case: raw, Obs: o})
+		}
 		if n%3000 == 1 {
 			c.Sample(map[string]interface{}{"features": cs.Feat, "docs": cs.Docs})
 		}
